@@ -111,7 +111,7 @@ def main():
     ap.add_argument("prop")
     ap.add_argument("--tier", default=os.environ.get("VERIF_TIER", "quick"))
     ap.add_argument("--only", default=None, help="regexp restricting harness names")
-    ap.add_argument("--jobs", type=int, default=int(os.environ.get("VERIF_JOBS", "12")))
+    ap.add_argument("--jobs", type=int, default=int(os.environ.get("VERIF_JOBS", "16")))
     ap.add_argument("--no-replay", action="store_true")
     a = ap.parse_args()
     seed = int(os.environ.get("VERIF_SEED", "0"))
